@@ -60,8 +60,26 @@ def run(chk):
     ud = repo.func(B, "PdoMap._update_data_size", "C05.R1")
     fu = ff_for(chk, ud, "C05.R1")
     st = attr_stores(ud.node, "data")
-    chk.check(len(st) == 1 and fu.is_form(st[0].value, "bytearray(int(math.ceil(self.length / 8.0)))", "bytearray(int(math.ceil(self.length / 8)))", "bytearray((self.length + 7) // 8)",
-                                          "bytearray(math.ceil(self.length / 8))"), "R1", f"{B}:PdoMap._update_data_size | ceil(length / 8) zero bytes", ud.loc(), f"{[src(s_) for s_ in st]}")
+    # decided by value: `self.data = bytearray(<n>)` where <n>, folded with self.length = 0..64, is the number of bytes that hold
+    # that many bits (the spelling of the ceiling division is free)
+    def _size_ok(v):
+        import math as _m
+        if not (isinstance(v, ast.Call) and dotted(v.func) == "bytearray" and len(v.args) == 1 and not v.keywords):
+            return False
+        for L_ in range(0, 65):
+            try:
+                e2 = ast.parse(src(v.args[0]).replace("self.length", f"({L_})").replace("math.ceil", "_ceil"), mode="eval").body
+                n_ = folder.fold(e2, Scope(ud.mod, None, {"_ceil": _m.ceil}))
+            except Exception:  # noqa
+                return None
+            if n_ != (L_ + 7) // 8 or isinstance(n_, bool) or int(n_) != n_:
+                return False
+        return True
+    dec = _size_ok(st[0].value) if len(st) == 1 else False
+    if dec is None:
+        dec = fu.is_form(st[0].value, "bytearray(int(math.ceil(self.length / 8.0)))", "bytearray(int(math.ceil(self.length / 8)))", "bytearray((self.length + 7) // 8)",
+                         "bytearray(math.ceil(self.length / 8))")
+    chk.check(bool(dec), "R1", f"{B}:PdoMap._update_data_size | ceil(length / 8) zero bytes", ud.loc(), f"{[src(s_) for s_ in st]}")
     pv = repo.func(B, "PdoVariable.__init__", "C05.R1")
     chk.saw(pv)
     st = attr_stores(pv.node, "length")
